@@ -105,7 +105,7 @@ def run(rep, wd, tier, seed):
     res = core.run_tlc('MC_KeyMgmt', cfg, wd, workers=core.NCPU, timeout=3000)
     core.require_ok(res, 'MC_KeyMgmt')
     rep.add_tlc('MC_KeyMgmt exhaustive', res)
-    n = 1600 if tier == 'thorough' else 130
+    n = 8000 if tier == 'thorough' else 130
     from .isocheck import _pool
     outs = _pool(_drive, [(seed, p) for p in core.split(list(range(n)), core.NCPU)])
     traces = [t for o in outs for t in o]
